@@ -41,10 +41,11 @@ LEVEL_TEXT = (
     "(purge_complete_ann/_status/_smart/_multi), path-level isolation of store/purge/touch, user data and other prefixes "
     "(foreign_annotation_untouched, other_prefix_untouched), clear, and stability of the names under everything a cycle changes "
     "(names_depend_on_kind_and_owners, names_stable). PARTIAL (the clause is false of the code; exact guards, full statement "
-    "in a comment, witnesses = open findings): valid_name_v2_partial / valid_name_v1_partial (guards EdgeAlnum = F6, room for "
-    "one character = F6c), distinct_partial / distinct_short_partial (guards: digests differ = F6b, safe forms differ = F6d; "
-    "forged ids F6e), id-level isolation only for v1=False (isolation_ids_short/_long; for v1=True refuted by "
-    "v1_negative_cut_witness = F6f). 'Identical across restarts' is carried by the tie/oracle (fresh object, fresh interpreter "
+    "in a comment, witnesses = open findings): valid_name_v2_partial / valid_name_v1_partial / valid_names_partial (guard "
+    "EdgeAlnum = F6 only, since kopf e916847 generates no V1 key without room), distinct_partial / distinct_short_partial "
+    "(guards: digests differ = F6b, safe forms differ = F6d), id-level isolation for every prefix and both v1 settings within "
+    "one length band (isolation_ids_short/_long/_v1_hashed); the mixed band is refuted by forged_witness / forged_v1_witness "
+    "(F6e). REGRESSIONS of the repaired F6c/F6f: no_v1_key_without_room, v1_long_prefix_regression, v1_negative_cut_regression. 'Identical across restarts' is carried by the tie/oracle (fresh object, fresh interpreter "
     "with another hash seed, golden names), not by a theorem. The model is tied to the real storages by a differential run "
     "on every check; an independent Python oracle decides violations."
 )
@@ -74,28 +75,32 @@ THEOREMS = [
     ("Kopf.Props.C16", "Kopf.C16.isolation_touch_ann"),
     ("Kopf.Props.C16", "Kopf.C16.isolation_other_handler"),
     ("Kopf.Props.C16", "Kopf.C16.isolation_other_handler_purge"),
-    ("Kopf.Props.C16", "Kopf.C16.isolation_ids_short"),
-    ("Kopf.Props.C16", "Kopf.C16.isolation_ids_long"),
     ("Kopf.Props.C16", "Kopf.C16.foreign_annotation_untouched"),
     ("Kopf.Props.C16", "Kopf.C16.other_prefix_untouched"),
     ("Kopf.Props.C16", "Kopf.C16.clear_removes_own"),
     ("Kopf.Props.C16", "Kopf.C16.clear_keeps_foreign"),
     ("Kopf.Props.C16", "Kopf.C16.names_depend_on_kind_and_owners"),
     ("Kopf.Props.C16", "Kopf.C16.names_stable"),
-    ("Kopf.Props.C16", "Kopf.C16.valid_name_v2_partial"),
-    ("Kopf.Props.C16", "Kopf.C16.valid_name_v1_partial"),
-    ("Kopf.Props.C16", "Kopf.C16.valid_name_marked"),
-    ("Kopf.Props.C16", "Kopf.C16.distinct_partial"),
-    ("Kopf.Props.C16", "Kopf.C16.distinct_short_partial"),
-    ("Kopf.Props.C16", "Kopf.C16.edge_witness"),
-    ("Kopf.Props.C16", "Kopf.C16.edge_witness_front"),
-    ("Kopf.Props.C16", "Kopf.C16.sfx_witness"),
-    ("Kopf.Props.C16", "Kopf.C16.v1_long_prefix_witness"),
-    ("Kopf.Props.C16", "Kopf.C16.v1_negative_cut_witness"),
-    ("Kopf.Props.C16", "Kopf.C16.collision_witness"),
-    ("Kopf.Props.C16", "Kopf.C16.safe_form_witness"),
-    ("Kopf.Props.C16", "Kopf.C16.forged_witness"),
     ("Kopf.Props.C16", "Kopf.C16.status_cover_witness"),
+    ("Kopf.Props.C16_Keys", "Kopf.C16.valid_name_v2_partial"),
+    ("Kopf.Props.C16_Keys", "Kopf.C16.valid_name_v1_partial"),
+    ("Kopf.Props.C16_Keys", "Kopf.C16.valid_names_partial"),
+    ("Kopf.Props.C16_Keys", "Kopf.C16.valid_name_marked"),
+    ("Kopf.Props.C16_Keys", "Kopf.C16.distinct_partial"),
+    ("Kopf.Props.C16_Keys", "Kopf.C16.distinct_short_partial"),
+    ("Kopf.Props.C16_Keys", "Kopf.C16.isolation_ids_short"),
+    ("Kopf.Props.C16_Keys", "Kopf.C16.isolation_ids_long"),
+    ("Kopf.Props.C16_Keys", "Kopf.C16.isolation_ids_v1_hashed"),
+    ("Kopf.Props.C16_Keys", "Kopf.C16.no_v1_key_without_room"),
+    ("Kopf.Props.C16_Keys", "Kopf.C16.v1_long_prefix_regression"),
+    ("Kopf.Props.C16_Keys", "Kopf.C16.v1_negative_cut_regression"),
+    ("Kopf.Props.C16_Keys", "Kopf.C16.edge_witness"),
+    ("Kopf.Props.C16_Keys", "Kopf.C16.edge_witness_front"),
+    ("Kopf.Props.C16_Keys", "Kopf.C16.sfx_witness"),
+    ("Kopf.Props.C16_Keys", "Kopf.C16.collision_witness"),
+    ("Kopf.Props.C16_Keys", "Kopf.C16.safe_form_witness"),
+    ("Kopf.Props.C16_Keys", "Kopf.C16.forged_witness"),
+    ("Kopf.Props.C16_Keys", "Kopf.C16.forged_v1_witness"),
 ]
 RULE = ("scenario = storage configuration (Annotations/Status/Smart/Multi as TREES: nested and empty Multis, status-headed and annotation-headed, sent to the model as trees, prefix from default / "
         "my-op.example.com / short / long-ish / 54..189 chars, v1 on/off, verbose, custom touch key / fields) x handler id over "
@@ -121,7 +126,8 @@ ASSUMPTIONS = [
     "(CRDs without x-kubernetes-preserve-unknown-fields) would drop a status-stored record — environment assumption",
     "json.dumps/json.loads: the theorems use only the instance loads(dumps(x)) = x at the value written; no injective codec is "
     "constructed in Lean (CPython's json is exercised by the tie)",
-    "id-level isolation for v1=True is not a theorem (refuted for prefixes of 56+ chars: F6f); the oracle checks it on every scenario",
+    "id-level isolation is proved within one length band only (both ids their own V1 names / both V1-hashed / both V2-hashed); "
+    "across bands an id can spell the hashed name of another (F6e); the oracle checks isolation on every scenario",
     "a Multi storage headed by a no-write status storage would read stale status records first (not a shipped configuration: "
     "Smart puts the annotations first); roundtrip_multi* require a writing head",
 ]
@@ -137,7 +143,7 @@ SIG_V1LONG = {"site": "StorageKeyFormingConvention.make_v1_key", "shape": "prefi
 SIG_DIGEST = {"site": "StorageKeyFormingConvention.make_suffix", "shape": "32-bit digest collision: distinct long ids sharing a prefix get the same annotation names"}
 SIG_SAFEFORM = {"site": "StorageKeyFormingConvention.make_safe_key", "shape": "distinct ids with the same safe form share one annotation"}
 SIG_V1NEG = {"site": "StorageKeyFormingConvention.make_v1_key", "shape": "negative v1 cut: the v1 name of an id is the v2 name of its safe form"}
-SIG_FORGED = {"site": "StorageKeyFormingConvention.make_v2_key", "shape": "short id equal to the hashed name of a long id shares its annotation"}
+SIG_FORGED = {"site": "StorageKeyFormingConvention.make_v2_key", "shape": "short id equal to the hashed name of a long id shares its annotation"}   # F6e (also the V1 name)
 
 
 # =============================================================================================
@@ -300,7 +306,7 @@ def real_safe(s: str) -> str:
 
 
 def sfx_table(ids: Iterable[str]) -> list[list[str]]:
-    seen: dict[str, str] = {}
+    seen: dict[str, str] = {"": real_suffix("")}     # make_keys asks for the suffix of '' (v1_fits)
     for k in ids:
         for v in (k, k + "-ofDRS"):
             for x in (v, real_safe(v)):
@@ -777,6 +783,12 @@ def classify_sharing(mk: str, mo: str, leaves: Iterable[tuple[str, bool]] = ()) 
     for a, b in ((mk, mo), (mo, mk)):
         if len(a) <= 63 < len(b) and a.translate(SAFE_TABLE) == b.translate(SAFE_TABLE)[:56] + pinned_suffix(b):
             return SIG_FORGED
+        # the same with the cut-and-hashed V1 name of b (V1 enabled and room for it under this prefix)
+        sa, sb = a.translate(SAFE_TABLE), b.translate(SAFE_TABLE)
+        for prefix, v1 in leaves:
+            room = 63 - (len(prefix) + 1)
+            if v1 and room > 7 and len(a) <= room < len(b) and sa == sb[:room - 7] + pinned_suffix(sb):
+                return SIG_FORGED
     if sk == so and len(mk) > 63:
         # same safe form, both hashed: the v2 names differ; only a negative v1 cut (prefix + '/' + suffix
         # longer than 63, v1 enabled) that keeps exactly 56 characters makes one id's v1 name the other's v2 name
@@ -863,6 +875,8 @@ def run_scenario(sc: dict, out: Out, with_driver: bool = True) -> None:
         if okinds[i] == "forged":
             # an id equal to the name part generated for k (possible when that name is over the alphabet)
             cand = own_names[0][len(prefixes[0]) + 1:] if (own_names and len(mk) > 63) else ""
+            if len(own_names) > 1 and own_names[1].startswith(prefixes[0] + "/") and (not cand or len(k) % 2):
+                cand = own_names[1][len(prefixes[0]) + 1:]      # the hashed V1 name of k, spelled as an id
             others[i] = cand if (cand and cand != k and all(c in ALPHABET for c in cand)) else k + "/forged"
     body0 = copy.deepcopy(base)
     writable = True
